@@ -90,6 +90,12 @@ pub fn schedx(args: &[&str]) -> String {
 pub fn schedt(args: &[&str]) -> String {
     sched_cmd("SCHEDT", args)
 }
+/// SCHEDR: same grammar as SCHED, the calls go through the random-bundle helpers (helpers::rnd_bundle(CreationTimestamp::now()) and
+/// the C interface's helper_rnd_bundle in turn).  One such call draws two timestamps and hands out the first, so the sequence numbers are
+/// not those of SCHED: only uniqueness of the pairs handed out is judged.
+pub fn schedr(args: &[&str]) -> String {
+    sched_cmd("SCHEDR", args)
+}
 /// STRESS <threads> <calls>: a fresh process, <threads> OS threads released together by a barrier, each making <calls> calls of
 /// CreationTimestamp::now() on the REAL clock with no scheduler hook (the free-running stress of the property text, including the
 /// very first calls of a process racing each other)  ->  OK <threads*calls> UNIQUE | DUP <time>:<seq>
@@ -190,6 +196,10 @@ pub fn sched_child_main() {
             TICKING.store(true, std::sync::atomic::Ordering::SeqCst);
             &toks[1..]
         }
+        Some(&"SCHEDR") => {
+            RND_ROUTE.store(true, std::sync::atomic::Ordering::SeqCst);
+            &toks[1..]
+        }
         _ => &toks[..],
     };
     let out = match parse(args) {
@@ -203,6 +213,7 @@ pub fn sched_child_main() {
 
 static ENTRY_MIX: std::sync::atomic::AtomicBool = std::sync::atomic::AtomicBool::new(false);
 static TICKING: std::sync::atomic::AtomicBool = std::sync::atomic::AtomicBool::new(false);
+static RND_ROUTE: std::sync::atomic::AtomicBool = std::sync::atomic::AtomicBool::new(false);
 
 /// the C caller's view of bp7::ffi::Buffer (cbindgen header: `struct Buffer { uint8_t *data; uint32_t len; }`)
 #[repr(C)]
@@ -214,6 +225,18 @@ struct CBuf {
 /// One call that generates a fresh creation timestamp, through the entry point number `k`.
 fn fresh_timestamp(k: usize) -> bp7::CreationTimestamp {
     use bp7::EndpointID;
+    if RND_ROUTE.load(std::sync::atomic::Ordering::SeqCst) {
+        if k % 2 == 0 {
+            return bp7::helpers::rnd_bundle(bp7::CreationTimestamp::now()).primary.creation_timestamp;
+        }
+        unsafe {
+            let p = bp7::ffi::helper_rnd_bundle();
+            let c = p as *mut CBuf;
+            let bytes = std::slice::from_raw_parts((*c).data, (*c).len as usize).to_vec();
+            bp7::ffi::buffer_free(p);
+            return bp7::Bundle::try_from(bytes).expect("helper_rnd_bundle decodes").primary.creation_timestamp;
+        }
+    }
     if !ENTRY_MIX.load(std::sync::atomic::Ordering::SeqCst) {
         return bp7::CreationTimestamp::now();
     }
